@@ -405,8 +405,28 @@ func flagPaths(f ldmodel.FeatureFlag, text []byte) string {
 		if e := easyFlagDecode(text, d1); e != "" {
 			return e
 		}
+		// the encoding/json hook into a destination that already holds another flag
+		d4 := usedFlag()
+		if err := json.Unmarshal(text, &d4); err != nil || !reflect.DeepEqual(d1, d4) {
+			return "json.Unmarshal into a previously used destination differs from the serialization object: " + firstDiff(reflect.ValueOf(d1), reflect.ValueOf(d4), "flag")
+		}
 	}
 	return ""
+}
+
+func usedFlag() ldmodel.FeatureFlag {
+	f, _ := serialization.UnmarshalFeatureFlag([]byte(`{"key":"old","on":true,"prerequisites":[{"key":"p","variation":1}],"targets":[{"values":["x"],"variation":1}],
+	 "contextTargets":[{"contextKind":"org","values":["y"],"variation":0}],"rules":[{"variation":1,"id":"oldrule","clauses":[{"attribute":"a","op":"in","values":[1,2],"negate":true}],"trackEvents":true}],
+	 "fallthrough":{"rollout":{"kind":"experiment","seed":5,"variations":[{"variation":0,"weight":100000,"untracked":true}]}},"offVariation":1,"variations":["a","b"],
+	 "clientSideAvailability":{"usingMobileKey":true,"usingEnvironmentId":true},"salt":"oldsalt","trackEvents":true,"trackEventsFallthrough":true,
+	 "debugEventsUntilDate":99,"version":9,"deleted":true,"migration":{"checkRatio":3},"samplingRatio":4,"excludeFromSummaries":true}`))
+	return f
+}
+func usedSegment() ldmodel.Segment {
+	s, _ := serialization.UnmarshalSegment([]byte(`{"key":"old","included":["a"],"excluded":["b"],"includedContexts":[{"contextKind":"org","values":["c"]}],
+	 "excludedContexts":[{"contextKind":"org","values":["d"]}],"salt":"oldsalt","rules":[{"id":"r","clauses":[],"weight":5,"bucketBy":"x","rolloutContextKind":"org"}],
+	 "unbounded":true,"unboundedContextKind":"org","version":9,"generation":3,"deleted":true}`))
+	return s
 }
 func segmentPaths(f ldmodel.Segment, text []byte) string {
 	a, _ := serialization.MarshalSegment(f)
@@ -439,6 +459,10 @@ func segmentPaths(f ldmodel.Segment, text []byte) string {
 		}
 		if e := easySegmentDecode(text, d1); e != "" {
 			return e
+		}
+		d4 := usedSegment()
+		if err := json.Unmarshal(text, &d4); err != nil || !reflect.DeepEqual(d1, d4) {
+			return "json.Unmarshal into a previously used destination differs from the serialization object: " + firstDiff(reflect.ValueOf(d1), reflect.ValueOf(d4), "segment")
 		}
 	}
 	return ""
